@@ -193,4 +193,73 @@ def chk_case(inp, c):
     c.nontrivial(n >= 2 or inp["kkind"] == "matrix" or X.ndim >= 2)
 
 
-M.add("linear_model", gen_case, chk_case, weight=1, min_held=200)
+M.add("linear_model", gen_case, chk_case, weight=3, min_held=200)
+
+
+# ------------------------------------------------------------------ clause: the model after a sequence of registrations
+
+def gen_seq(rng, i):
+    inp = gen_case(rng, i)
+    inp["ops"] = [["adaptation", "baseline", "background", "system_adaptation", "query"][rng.integers(5)]
+                  for _ in range(int(rng.integers(2, 6)))]
+    inp["seq_seed"] = int(rng.integers(0, 2 ** 31 - 1))
+    return inp
+
+
+def chk_seq(inp, c):
+    """Captures are K (Q + baseline) for the CURRENTLY registered K and baseline after any sequence of registrations and
+    queries on one estimator (K, baseline and A are tracked by an independent model)."""
+    f, s, dom = inp["filters"], inp["sources"], inp["domain"]
+    m, nd = f.shape
+    n = s.shape[0]
+    rr = np.random.default_rng(inp["seq_seed"])
+    dom_arg = float(dom) if np.ndim(dom) == 0 else dom.copy()
+    est = c.call(dreye.ReceptorEstimator, f.copy(), domain=dom_arg, sources=s.copy(), _where="ReceptorEstimator(sources=)")
+    w = oracles.domain_weights(dom, nd, True)
+    Aor, Amag = oracles.capture_oracle(f, s, w)            # (n, m)
+    K, base = np.ones(m), np.zeros(m)
+    X = inp["X"]
+    sig = np.abs(np.resize(inp["signals"], (2, nd)))
+
+    def verify(tag):
+        Q = X @ Aor
+        Qm = np.abs(X) @ Amag
+        want, _ = _K_apply(K, Q + base, m)
+        _, mag = _K_apply(K, Qm + np.abs(base), m)
+        got = np.asarray(c.call(est.system_relative_capture, X.copy(), _where="system_relative_capture"))
+        c.require(got.shape == want.shape and np.all(np.abs(got - want) <= 1e-9 * mag + 1e-300),
+                  "system relative capture equals K (Q + baseline) for the currently registered K and baseline",
+                  mechanism="sequence:sysrel-value", after=tag)
+        So, Sm = oracles.capture_oracle(f, sig, w)
+        want2, _ = _K_apply(K, So + base, m)
+        _, mag2 = _K_apply(K, Sm + np.abs(base), m)
+        got2 = np.asarray(c.call(est.relative_capture, sig.copy(), _where="relative_capture"))
+        c.require(got2.shape == want2.shape and np.all(np.abs(got2 - want2) <= 1e-9 * mag2 + 1e-300),
+                  "relative capture of a spectrum equals K (Q + baseline) for the currently registered K and baseline",
+                  mechanism="sequence:rel-value", after=tag)
+    verify("registration")
+    for op in inp["ops"]:
+        c.cell("seq-op=" + op)
+        if op == "adaptation":
+            kk = ["scalar", "vector", "matrix"][rr.integers(3)]
+            Kn = gen.make_K(rr, m, kk)
+            c.call(est.register_adaptation, Kn.copy() if isinstance(Kn, np.ndarray) else Kn, _where="register_adaptation")
+            K = np.asarray(Kn, float) if np.ndim(Kn) else np.full(m, float(Kn))
+        elif op == "baseline":
+            base = rr.uniform(0, 0.3, m) * float(np.mean(np.abs(Aor)) * n + 1e-12)
+            c.call(est.register_baseline, base.copy(), _where="register_baseline")
+        elif op == "background":
+            bg = np.abs(rr.normal(0.5, 0.3, nd)) + 0.05
+            bg = bg * float(inp.get("unit", 1.0))
+            c.call(est.register_background_adaptation, bg.copy(), _where="register_background_adaptation")
+            K = 1.0 / (np.sum(f * bg * w, axis=-1) + base)
+        elif op == "system_adaptation":
+            xa = rr.uniform(0.1, 2, n)
+            c.call(est.register_system_adaptation, xa.copy(), _where="register_system_adaptation")
+            K = 1.0 / (xa @ Aor + base)
+        verify(op)
+    c.nontrivial(len(inp["ops"]) >= 2)
+    c.note("ops", inp["ops"])
+
+
+M.add("registration_sequences", gen_seq, chk_seq, weight=1, min_held=60)
